@@ -271,7 +271,9 @@ func ChildMain() {
 	vsched.OnPoint(func(id string) bool {
 		switch {
 		case match(id, PointFinish):
-			if n := c.finished.Add(1); int(n) == spec.ExpectFinished && !spec.Quiesce {
+			n := c.finished.Add(1)
+			c.event("finish-message %d", n) // the n-th finish message is about to be sent to the source
+			if int(n) == spec.ExpectFinished && !spec.Quiesce {
 				// the n-th finish message is about to be sent
 				doneOnce.Do(func() { close(allDone) })
 			}
